@@ -61,7 +61,8 @@ TECHNIQUE = "bounded-exhaustive enumeration of loop nests / cyclic graphs / name
 ASSUMPTIONS = ["sys.getsizeof is stable within one process", "Python's default recursion limit (1000) is in force while cyclic graphs are rendered"]
 
 MARK = "é"  # 2 bytes
-KINDS = ("F", "H", "T", "IF", "RF", "FR", "FI", "FM", "FC", "FB")
+KINDS = ("F", "H", "T", "IF", "RF", "FR", "FI", "FM", "FC", "FB", "FS", "FP")
+SEQ_KINDS = KINDS[:10]
 
 
 # ------------------------------------------------------------------ nest construction
@@ -105,6 +106,16 @@ def build_nest(kinds: tuple[str, ...], lengths: tuple[int, ...]) -> tuple[str, d
             body = "{% macro m" + str(lvl) + " %}" + body + "{% endmacro %}{% for " + v + " in " + arr + " %}{% call m" + str(lvl) + " %}{% endfor %}"
         elif k == "FC":
             body = "{% capture c" + str(lvl) + " %}{% for " + v + " in " + arr + " %}" + body + "{% endfor %}{% endcapture %}{{ c" + str(lvl) + " }}"
+        elif k == "FS":
+            # a loop around {{ block.super }}: the parent's block body runs once per iteration, in a rendered partial
+            templates[f"q{lvl}"] = "{% block b %}" + body + "{% endblock %}"
+            templates[f"c{lvl}"] = "{% extends 'q" + str(lvl) + "' %}{% block b %}{% for " + v + " in " + arr + " %}{{ block.super }}{% endfor %}{% endblock %}"
+            body = "{% render 'c" + str(lvl) + "' %}"
+        elif k == "FP":
+            # the loop is in the parent, around a block; the overriding block passes through block.super
+            templates[f"q{lvl}"] = "{% for " + v + " in " + arr + " %}{% block b %}" + body + "{% endblock %}{% endfor %}"
+            templates[f"c{lvl}"] = "{% extends 'q" + str(lvl) + "' %}{% block b %}{{ block.super }}{% endblock %}"
+            body = "{% render 'c" + str(lvl) + "' %}"
         elif k == "FB":
             # a loop whose own text is blank, inside a conditional block (blank-block suppression path)
             body = "{% if true %}{% for " + v + " in " + arr + " %} " + body + "{% endfor %}{% endif %}"
@@ -113,7 +124,7 @@ def build_nest(kinds: tuple[str, ...], lengths: tuple[int, ...]) -> tuple[str, d
     for k in kinds:
         if iso and k in ("IF", "FI"):
             bad = True
-        if k in ("RF", "FR", "FM"):
+        if k in ("RF", "FR", "FM", "FS", "FP"):
             iso = True
     main = "a\r\nb\r" + body + "c\n"
     return main, templates, data, bad
@@ -319,9 +330,9 @@ def sequel_space(tier: str) -> list[tuple[int, tuple[str, ...], tuple[int, ...]]
     out = []
     lens2 = ((2, 3), (3, 2), (3, 3)) if tier == "quick" else ((2, 3), (3, 2), (3, 3), (2, 2), (1, 3), (3, 4))
     for p in range(len(PREFIXES)):
-        for k in KINDS:
+        for k in SEQ_KINDS:
             out.append((p, (k,), (3,)))
-        for kinds in itertools.product(KINDS, repeat=2):
+        for kinds in itertools.product(SEQ_KINDS, repeat=2):
             for lens in lens2:
                 out.append((p, kinds, lens))
     return out
